@@ -319,6 +319,10 @@ structure Delta where
   seconds : Int := 0
   deriving DecidableEq, Repr, Inhabited
 
+/-- `bool(relativedelta)` for the deltas `_delta` builds: false iff no field is set -/
+def Delta.truthy (d : Delta) : Bool :=
+  d.month.isSome || d.day.isSome || d.weekday.isSome || d.leapdays != 0 || d.seconds != 0
+
 /-- the `ydayidx` scan of `relativedelta.__init__` for `yearday=` / `nlyearday=` -/
 def ydayToMonthDay (yday : Int) : Py.R (Int × Int) :=
   let idx : List Int := [31, 59, 90, 120, 151, 181, 212, 243, 273, 304, 334, 366]
@@ -403,6 +407,11 @@ def tzstr (s : String) (posix : Bool) : Py.R Zone := do
       .ok { stdAbbr := res.stdabbr, dstAbbr := res.dstabbr, stdOff, dstOff, start := none, «end» := none, hasdst := false }
     else do
       let sd ← delta res.start false stdOff dstOff
+      -- `if self._start_delta:` — a relativedelta with no field set is falsy (e.g. `J0/0`): the end delta is
+      -- then never built (it stays the `False` passed to tzrange.__init__) and `hasdst = bool(start_delta)` is False
+      if !sd.truthy then
+        .ok { stdAbbr := res.stdabbr, dstAbbr := res.dstabbr, stdOff, dstOff, start := some sd, «end» := none, hasdst := false }
+      else do
       let ed ← delta res.«end» true stdOff dstOff
       .ok { stdAbbr := res.stdabbr, dstAbbr := res.dstabbr, stdOff, dstOff, start := some sd, «end» := some ed, hasdst := true }
 
